@@ -610,16 +610,17 @@ def execute(check, case, workdir):
                     if len(idx) == 0:
                         continue
                 inplace = op['inplace']
-                flags = 'inplace=%d,cache=%s' % (inplace, cache_state(m))
+                cs_before = cache_state(m)
+                flags = 'inplace=%d,cache=%s' % (inplace, cs_before)
                 if kind == 'atom_slice':
                     r = t.atom_slice(idx, inplace=inplace)
                 else:
                     r = t.remove_solvent(inplace=inplace)
-                if cache_state(m) == 'set' and inplace:
+                if cs_before == 'set' and inplace:
                     res.probe('cache_present_at_inplace_atom_slice')
                 labels = [m.labels[a] for a in idx]
                 res.log.append('%d %s m%d inplace=%d -> %d atoms' % (stepno, kind, m.id, inplace, len(idx)))
-                res.trace.append((kind, inplace, cache_state(m), m.complete))
+                res.trace.append((kind, inplace, cs_before, m.complete))
                 if inplace:
                     if r is not t:
                         viol(kind, 'inplace_returned_other_object', {}, stepno, flags)
@@ -670,17 +671,34 @@ def execute(check, case, workdir):
                 t.superpose(u.t, frame=f, parallel=op['parallel'])
                 res.log.append('%d superpose m%d onto m%d[%d]' % (stepno, m.id, u.id, f))
                 res.trace.append(('superpose', u is m, cache_state(m)))
-                if m.xyz.shape[1] >= 3:
-                    exp = np.empty(m.xyz.shape, dtype=np.float64)
-                    degenerate = False
+                if m.xyz.shape[1] >= 3 and judge03:
+                    # the result must be a rigid motion of the input whose RMSD to the reference frame is the optimal one
+                    # (coordinates are not compared: for planar / near-degenerate point sets the optimal rotation is not unique)
+                    scale = max(1.0, float(np.abs(m.xyz).max()), float(np.abs(refx).max()))
+                    live = np.asarray(t.xyz, dtype=np.float64)
+                    bad_kind = None
                     for k in range(m.n):
-                        R, tP, tQ, S = kabsch_fit(m.xyz[k], refx)
-                        if S[1] < 1e-3 * max(S[0], 1e-12) or abs(S[1] - S[2]) < 1e-6 * S[0]:
-                            degenerate = True
-                        exp[k] = (m.xyz[k].astype(np.float64) - tP) @ R + tQ
-                    scale = max(1.0, float(np.abs(m.xyz).max()))
-                    if judge03 and not degenerate and not _close(t.xyz, exp, atol=2e-3 * scale):
-                        viol('superpose', 'result_mismatch:xyz', {'max_abs': float(np.abs(t.xyz - exp).max())}, stepno, flags)
+                        x0 = m.xyz[k].astype(np.float64)
+                        d0 = np.linalg.norm(x0[:, None] - x0[None], axis=2)
+                        d1 = np.linalg.norm(live[k][:, None] - live[k][None], axis=2)
+                        if np.abs(d0 - d1).max() > 2e-4 * scale:
+                            bad_kind = ('not_rigid', float(np.abs(d0 - d1).max()))
+                            break
+                        if np.abs(live[k].mean(0) - refx.mean(0)).max() > 2e-4 * scale:
+                            bad_kind = ('centroid', float(np.abs(live[k].mean(0) - refx.mean(0)).max()))
+                            break
+                        R, tP, tQ, S = kabsch_fit(x0, refx)
+                        opt = np.sqrt((((x0 - tP) @ R + tQ - refx) ** 2).sum() / len(x0))
+                        got_r = np.sqrt(((live[k] - refx) ** 2).sum() / len(x0))
+                        # optimality is demanded only for well-conditioned point sets (full-rank covariance); the QCP kernel gives up
+                        # ("unconverged rotation matrix, returning identity") on collinear / coincident / planar inputs, which is a
+                        # numerical limit of the kernel (C06 territory), not a slicing or aliasing matter
+                        if S[2] > 1e-2 * max(S[0], 1e-12) and got_r > opt + 2e-2 * scale:
+                            bad_kind = ('not_optimal', float(got_r - opt))
+                            break
+                    if bad_kind is not None:
+                        viol('superpose', 'result_mismatch:' + bad_kind[0], {'excess': bad_kind[1]}, stepno, flags)
+                        m.xyz = np.array(t.xyz, dtype=np.float32)
                         continue
                 if judge03 and before_u is not None and snapshot_bytes(u) != before_u:
                     viol('superpose', 'reference_mutated', {'reference_member': u.id}, stepno, flags)
@@ -773,9 +791,13 @@ def execute(check, case, workdir):
                 res.log.append('%d rmsd m%d vs m%d[%d] pre=%d shortcut=%d' % (stepno, m.id, u.id, f, pre, shortcut))
                 res.trace.append(('rmsd', pre, cache_state(m), cache_state(u), u is m))
                 if judge03:
-                    if np.asarray(got).shape != (m.n,) or not np.allclose(got, ref, atol=5e-3, rtol=5e-3):
+                    # float32 QCP: near-zero RMSDs carry noise of up to ~1e-2 nm; a stale trace is off by >= 0.1 nm here
+                    enough_atoms = m.xyz.shape[1] >= 3
+                    if np.asarray(got).shape != (m.n,) or (enough_atoms and not np.allclose(got, ref, atol=2e-2, rtol=1e-2)):
                         viol('rmsd', 'differs_from_scratch', {'expected': np.asarray(ref).tolist()[:8], 'got': np.asarray(got).tolist()[:8],
                                                               'target_frames': m.n}, stepno, flags)
+                        m.xyz = np.array(m.t.xyz, dtype=np.float32)
+                        u.xyz = np.array(u.t.xyz, dtype=np.float32)
                         continue
                     # documented in-place centring of target and reference (frame f); nothing else may change
                     for mem, old, frames in ((m, old_m, None), (u, old_u, [f])):
@@ -967,7 +989,7 @@ def execute(check, case, workdir):
                 break
             if cs == 'set':
                 res.probe('final_sweep_shortcut_taken')
-            if np.asarray(got).shape != (m.n,) or not np.allclose(got, ref, atol=5e-3, rtol=5e-3):
+            if np.asarray(got).shape != (m.n,) or (m.xyz.shape[1] >= 3 and not np.allclose(got, ref, atol=2e-2, rtol=1e-2)):
                 viol('final_rmsd', 'differs_from_scratch', {'expected': np.asarray(ref).tolist()[:8], 'got': np.asarray(got).tolist()[:8],
                                                             'member': m.id}, len(case['ops']), 'cache=%s' % cs)
                 break
